@@ -2,6 +2,8 @@
 // go/packages through an overlay; functions without bodies are engine intrinsics.
 package zzverif
 
+import "sync"
+
 func Bool() bool
 func Byte() byte
 func Int8() int8
@@ -203,7 +205,7 @@ func ModelIndexString(a, b string) int {
 	return -1
 }
 
-func ModelOnceDo(o any, f func()) {
+func ModelOnceDo(o *sync.Once, f func()) {
 	if GhostGet(o, "done") != 0 {
 		return
 	}
@@ -211,7 +213,15 @@ func ModelOnceDo(o any, f func()) {
 	f()
 }
 
-type poolLike interface{}
+// sync.Pool never keeps anything: Get always allocates through New.
+func ModelPoolGet(p *sync.Pool) any {
+	if p.New != nil {
+		return p.New()
+	}
+	return nil
+}
+
+func ModelPoolPut(p *sync.Pool, x any) {}
 
 func ModelConstantTimeCompare(x, y []byte) int {
 	if len(x) != len(y) {
